@@ -13,7 +13,7 @@ pub fn meta() -> Meta {
         rule: "packets generated with heavy suffix sharing between owner, question and RDATA names (plus a size sweep that places \
 the first occurrence of a name at every offset 16370..16400 and repeats it later, and messages up to 65535 bytes) are serialised \
 with and without compression; both outputs are parsed and compared with each other and with the model; len(compressed) <= \
-len(plain). non-trivial = the compressed output contains at least one pointer (independent walker); distinct = hash of the model",
+len(plain); the writer-based compressed entry point is also run into a stream that already holds 1/2/7/300 bytes and its message must parse to the same packet. non-trivial = the compressed output contains at least one pointer (independent walker); distinct = hash of the model",
         assumptions: &["same domain as C02", "pointer counting uses the reference typed walker"],
         exhaustive: false,
         min_distinct: 500,
@@ -61,6 +61,41 @@ pub fn check_one(ctx: &mut Ctx, family: &str, idx: u64, p: &PktM) {
         );
     } else {
         ctx.count("transparent");
+    }
+    // the writer-based compressed entry point, into a stream that already holds k bytes: the message written there must
+    // be just as transparent (its pointers and length back-patches are relative to the message, not to the stream)
+    let k = [1usize, 2, 7, 300][(idx % 4) as usize];
+    let streamed = crate::monitor::guard(|| {
+        let lib = crate::bridge::to_lib(p).map_err(|e| e.to_string())?;
+        let mut cur = std::io::Cursor::new(vec![0xEEu8; k]);
+        cur.set_position(k as u64);
+        lib.write_compressed_to(&mut cur).map_err(|e| format!("{:?}", e))?;
+        Ok::<Vec<u8>, String>(cur.into_inner())
+    });
+    match streamed {
+        Err(pn) => ctx.panic_violation("write_compressed_to at a non-zero stream position", &pn, gen_case(family, idx, p, json!({"stream_offset": k}))),
+        Ok(Err(e)) => ctx.violation("build-succeeds", "build-error:write_compressed_to@k", format!("write_compressed_to at stream offset {} failed: {}", k, e), gen_case(family, idx, p, json!({"stream_offset": k}))),
+        Ok(Ok(all)) => {
+            let msg = &all[k.min(all.len())..];
+            ctx.count("streamed_outputs_checked");
+            if all[..k.min(all.len())].iter().any(|b| *b != 0xEE) {
+                ctx.violation("compression-transparent", "streamed-output-overwrites-earlier-bytes", format!("write_compressed_to at stream offset {} changed bytes before its starting position", k), gen_case(family, idx, p, json!({"stream_offset": k})));
+            } else if msg.len() > plain.len() {
+                ctx.violation("never-longer", "compressed-longer:streamed", format!("compressed output at stream offset {} is {} bytes, plain is {}", k, msg.len(), plain.len()), gen_case(family, idx, p, json!({"stream_offset": k})));
+            } else {
+                match parse_obs(msg) {
+                    Ok(Ok(o)) => {
+                        if let Some(d) = diff_pkt(&obs_plain, &o) {
+                            ctx.violation("compression-transparent", &format!("streamed-compressed-differs:{}:{}", diff_type(&obs_plain, &o), diff_field(&obs_plain, &o)),
+                                format!("parse(write_compressed_to at stream offset {}) differs from parse(plain): {}", k, d), gen_case(family, idx, p, json!({"stream_offset": k, "bytes": hex(&msg[..msg.len().min(600)])})));
+                        }
+                    }
+                    Ok(Err(e)) => ctx.violation("parse-own-output", &format!("parse-own-output:write_compressed_to@k:{}", first_type(p)),
+                        format!("Packet::parse rejected the output of write_compressed_to at stream offset {}: {}", k, e), gen_case(family, idx, p, json!({"stream_offset": k, "bytes": hex(&msg[..msg.len().min(600)])}))),
+                    Err(pn) => ctx.panic_violation("Packet::parse (own streamed output)", &pn, gen_case(family, idx, p, json!({"stream_offset": k}))),
+                }
+            }
+        }
     }
 }
 
